@@ -101,7 +101,7 @@ class C06(Check):
     }
 
     def strategy(self, tier, exclude):
-        kw = dict(max_classes=6, grammar="orm", allow_self_collection="self_typed_collection" not in exclude,
+        kw = dict(max_classes=6, grammar="orm", allow_mixin=True, allow_self_collection="self_typed_collection" not in exclude,
                   require_builtin="no_builtin_field" in exclude)
         plain = st.tuples(MI.model_ir(**kw), st.integers(0, 5))
         # a third of the models use a custom column type, an alternatively mapped class and a normally mapped subclass of one
@@ -154,6 +154,8 @@ class C06(Check):
             classes_.append("several_collections_of_one_target")
         depth = max(len(MI.ancestors(model, i)) for i in range(len(names)))
         classes_.append(f"inheritance_depth{depth}")
+        if any(c.get("base2") is not None for c in model["classes"]):
+            classes_.append("multiple_inheritance")
 
         def bad(kind, msg):
             return fail(kind, msg, classes=classes_, nontrivial=nontrivial, features=feats, bucket=kind)
@@ -195,6 +197,8 @@ class C06(Check):
                     if i == j:
                         continue
                     want = j in MI.ancestors(model, i)
+                    if not want and j in MI.all_ancestors(model, i):
+                        continue  # reached through a second base: only the chain of first bases is mirrored for certain
                     if issubclass(daos[i], daos[j]) != want:
                         return bad("inheritance_not_mirrored", f"issubclass({names[i]}DAO, {names[j]}DAO) is {not want}")
             secondaries = {}
@@ -202,7 +206,10 @@ class C06(Check):
                 insp = sa_inspect(daos[i])
                 cols = {a.key for a in insp.column_attrs}
                 relationships = {r.key: r for r in insp.relationships}
-                for f in c["fields"]:
+                # own fields, and the fields that come in through a second base (they have no other table to live in)
+                first_chain = {f["name"] for a in MI.ancestors(model, i) for f in MI.all_fields(model, a)}
+                via_second_base = [f for f in MI.all_fields(model, i) if f["name"] not in first_chain and f not in c["fields"]]
+                for f in list(c["fields"]) + via_second_base:
                     name, t = f["name"], f["t"]
                     if name.startswith("_"):
                         if name in cols or name in relationships:
